@@ -139,6 +139,9 @@ def _opsname(chunk):
     return '+'.join(names) if len(names) <= 4 else '+'.join(names[:3]) + f'+{len(names) - 3}more'
 
 
+SUBSET_OPS = [('add', 'same'), ('sub', 'permuted'), ('binary_blockwise', 'subtract'), ('binary_blockwise', 'args'), ('ibinary_blockwise', 'd'),
+              ('iadd_prefactor_other', 'same'), ('tensordot', 'int1'), ('inner', 'range'), ('outer', 'd'), ('concatenate', 'axis0'),
+              ('combine_legs', 'all'), ('split_legs', 'unsorted'), ('trace', 'rank3_labels'), ('setitem', 'slice_npc')]
 PAIR_FIRST = [('transpose', 'perm'), ('conj', 'd'), ('combine_legs', 'all'), ('take_slice', 'one'), ('iproject', 'mask'), ('add_trivial_leg', 'front'),
               ('scale_axis', 'first'), ('permute', 'first'), ('sort_legcharge', 'default'), ('gauge_total_charge', 'new'), ('concatenate', 'axis0'),
               ('itranspose', 'perm'), ('extend', 'leg'), ('add', 'same'), ('getitem', 'negstep'), ('tensordot', 'int1')]
@@ -160,18 +163,35 @@ def CASES(tier, seed):
         for ci, chunk in enumerate(_balanced(ops, COST_A, 14)):
             cases.append(dict(name=f"A[mod={st['mods']},qconj={[l['qconj'] for l in st['legs']]}]ops{ci}:{_opsname(chunk)}",
                               fn='op_case', params=dict(struct=st, ops=chunk, cplx=(si % 2 == 0), subset='all'), opts=OA))
-    OB = dict(max_paths=5000, max_wall_s=200, validate_paths=2, hard_timeout_s=230)
+    OB = dict(max_paths=5000, max_wall_s=200, validate_paths=2, hard_timeout_s=230) if tier == 'quick' else dict(
+        max_paths=300000, max_wall_s=1500, validate_paths=2, hard_timeout_s=1700)
     for si, st in enumerate(structs_B(tier, seed)):
-        for ci, chunk in enumerate(_chunks(opsB, 40)):
+        for ci, chunk in enumerate(_chunks(opsB, 40 if tier == 'quick' else (8 if st['rank'] > 3 else 14))):
             cases.append(dict(name=f"B[{si},mod={st['mods']},rank={st['rank']}]ops{ci}:{_opsname(chunk)}",
                               fn='op_case', params=dict(struct=st, ops=chunk, cplx=(si % 2 == 1), subset='draw' if si % 3 else 'all'), opts=OB))
-    # depth-2 programs over a reduced catalogue: all ordered pairs (op1 then op2 on its result)
+    # Tier A with a symbolic subset of stored blocks per operand (operands with different block sets)
+    sA = structs_A(tier)
+    for si in ([2] if tier == 'quick' else [0, 2, 4]):
+        st = sA[si]
+        for ci, chunk in enumerate(_chunks(SUBSET_OPS, 1 if tier == 'quick' else 2)):
+            cases.append(dict(name=f"A-subsets[mod={st['mods']}]ops{ci}:{_opsname(chunk)}", fn='op_case',
+                              params=dict(struct=st, ops=chunk, cplx=False, subset='choose'), opts=OA))
+    # tensors without any stored block (all variants)
     sB = structs_B(tier, seed)
-    for si in ([1, 7] if tier == 'quick' else range(1, len(sB))):
+    for si in ([1, 9] if tier == 'quick' else range(len(sB))):
         if si >= len(sB):
             continue
         st = sB[si]
-        for ci, chunk in enumerate(_chunks(PAIR_FIRST, 5)):
+        for ci, chunk in enumerate(_chunks(opsB, 80)):
+            cases.append(dict(name=f"B-noblocks[{si},mod={st['mods']},rank={st['rank']}]ops{ci}:{_opsname(chunk)}", fn='op_case',
+                              params=dict(struct=st, ops=chunk, cplx=(si % 2 == 1), subset='none'), opts=OB))
+    # depth-2 programs over a reduced catalogue: all ordered pairs (op1 then op2 on its result)
+    sB = structs_B(tier, seed)
+    for si in ([1, 7] if tier == 'quick' else range(1, 16)):
+        if si >= len(sB) or sB[si]['rank'] > 3:
+            continue
+        st = sB[si]
+        for ci, chunk in enumerate(_chunks(PAIR_FIRST, 5 if tier == 'quick' else 2)):
             cases.append(dict(name=f"pairs-B[{si},mod={st['mods']},rank={st['rank']}]first{ci}:{_opsname(chunk)}", fn='pair_case',
                               params=dict(struct=st, ops1=chunk, ops2=PAIR_SECOND, cplx=(si % 2 == 0), subset='draw' if si % 2 else 'all'),
                               opts=dict(OB, max_paths=60000)))
